@@ -276,7 +276,10 @@ def connection(ctx, nsteps=2, streams=None, behaviours=None, sym_hole=False, dis
                                            "field-name-not-token", "ctl-in-field-value", "field-line-without-colon")
             answered_all = len(finals) >= len(want.msgs)
             announced = any((b"connection", b"close") in r.headers for r in finals)
-            if not ((in_body and answered_all) or announced) and finals:
+            # a handler that failed after its response had started leaves a broken stream: the only thing
+            # left to do is to close, a 4xx for the bytes that follow cannot be sent any more
+            broken = any(not r.complete for r in resps)
+            if not ((in_body and answered_all) or announced or broken) and finals:
                 return fail("unparsable-input-closed-without-4xx:" + str(want.reason))
     # never: open transport, complete request unanswered, no handler alive, nothing scheduled
     if not tr.closed and not lost:
